@@ -163,9 +163,8 @@ type model struct {
 }
 
 type coverage struct {
-	sessOmitted, sessIncluded, sessIncr int64
-	rcAbortedHidden                    int64
-	requests                           int64
+	SessOmitted, SessIncluded, SessIncr int64
+	RcAbortedHidden                    int64
 }
 
 func (m *model) clone() *model {
@@ -948,7 +947,7 @@ func (m *model) checkFetchPart(h *harness, what string, p int, iso int8, from in
 		}
 	}
 	if hidden {
-		m.cov.rcAbortedHidden++
+		m.cov.RcAbortedHidden++
 	}
 	for i := 0; i < len(want) || i < len(del); i++ {
 		switch {
@@ -1012,7 +1011,7 @@ func (m *model) doSession(h *harness, iso int8) {
 		}
 	}
 	if !full {
-		m.cov.sessIncr++
+		m.cov.SessIncr++
 	}
 	s.created = true
 	for p := 0; p < 2; p++ {
@@ -1048,11 +1047,11 @@ func (m *model) doSession(h *harness, iso int8) {
 					what, p, why, s.last[p], s.known[p], triple, from, len(data))
 				return
 			}
-			m.cov.sessOmitted++
+			m.cov.SessOmitted++
 			s.dirty[p] = false
 			continue
 		}
-		m.cov.sessIncluded++
+		m.cov.SessIncluded++
 		next := from
 		if h != nil {
 			var gotOOR bool
